@@ -51,6 +51,12 @@ def instances(tier, seed):
     out.append(dict(op="expectation", kinds=("e", "e"), bonds=(1, 2, 1), kind="cplx", label="expectation ee cplx", key="expectation"))
     out.append(dict(op="transition", kinds=("e", "e"), bonds=(1, 2, 1), kind="cplx", label="transition ee cplx", key="transition"))
     out.append(dict(op="rdm1", kinds=("e", "e"), bonds=(1, 2, 1), kind="cplx", label="rdm1 ee cplx", key="rdm1"))
+    out.append(dict(op="rdm2", kinds=("s", "s", "s"), bonds=(1, 2, 2, 1), kind="cplx", label="rdm2 sss cplx", key="rdm2"))
+    # density operators (purifications): physical and ancilla legs of a generic MpDm are not interchangeable
+    for kinds, bonds in [(("s", "s"), (1, 2, 1)), (("s", "w", "s"), (1, 2, 2, 1))]:
+        for op in ("mpdm_rdm1", "mpdm_rdm2"):
+            out.append(dict(op=op, kinds=kinds, bonds=bonds, kind="real", label="%s %s generic density operator" % (op, "".join(kinds)), key=op))
+    out.append(dict(op="mpdm_rdm1", kinds=("s", "s"), bonds=(1, 2, 1), kind="cplx", label="mpdm_rdm1 ss generic density operator complex", key="mpdm_rdm1"))
     return out
 
 
@@ -58,6 +64,8 @@ def plain_mps(ctx, name, model, bonds, kind="real"):
     from renormalizer.mps import Mps
     m = Mps()
     m.model = model
+    if (not ctx.symbolic) and kind == "cplx":
+        m.to_complex(inplace=True)      # float build: the container's dtype decides what append() accepts
     for i in range(model.nsite):
         m.append(ctx.array("%s%d" % (name, i), (bonds[i], model.pbond_list[i], bonds[i + 1]), kind))
     m.build_empty_qn()
@@ -82,6 +90,8 @@ def make_harness(P):
         if op in ("expectation", "transition", "mpdm"):
             o = Mpo()
             o.model = model
+            if (not ctx.symbolic) and kind == "cplx":
+                o.to_complex(inplace=True)
             obonds = [1] + [2] * (n - 1) + [1]
             for i in range(n):
                 o.append(ctx.array("o%d" % i, (obonds[i], dims[i], dims[i], obonds[i + 1]), kind))
@@ -104,6 +114,8 @@ def make_harness(P):
                 # a generic (non-diagonal) density operator as well
                 g = MpDm()
                 g.model = model
+                if (not ctx.symbolic) and kind == "cplx":
+                    g.to_complex(inplace=True)
                 gb = [1] + [2] * (n - 1) + [1]
                 for i in range(n):
                     g.append(ctx.array("g%d" % i, (gb[i], dims[i], dims[i], gb[i + 1]), kind))
@@ -111,6 +123,30 @@ def make_harness(P):
                 g.coeff = 1
                 G = lib.dense_op(lib.tensors(g))
                 ctx.check("density-operator expectation path = Tr(rho^dagger O rho) for a generic rho", ctx.eq(g.expectation(o), np.trace(np.conj(G).T.dot(O).dot(G))))
+        elif op in ("mpdm_rdm1", "mpdm_rdm2"):
+            g = MpDm()
+            g.model = model
+            if (not ctx.symbolic) and kind == "cplx":
+                g.to_complex(inplace=True)
+            gb = list(P["bonds"])
+            for i in range(n):
+                g.append(ctx.array("g%d" % i, (gb[i], dims[i], dims[i], gb[i + 1]), kind))
+            g.build_empty_qn()
+            g.coeff = 1
+            # the purification as a vector over (physical_1, ancilla_1, physical_2, ancilla_2, ...)
+            res = np.ones((1, 1), dtype=object if ctx.symbolic else complex)
+            for t in lib.tensors(g):
+                t = np.asarray(t)
+                res = np.tensordot(res, t, axes=([-1], [0])).reshape(-1, t.shape[-1])
+            psi2 = res[:, 0].reshape([d for d_ in dims for d in (d_, d_)])
+            if op == "mpdm_rdm1":
+                rd = g.calc_1site_rdm()
+                ctx.check("density operator: one-site reduced density matrices = partial trace over every other PHYSICAL and every ANCILLA index",
+                          ctx.all([ctx.eq(rd[i], _partial_trace(psi2, [2 * i])) for i in range(n)]))
+            else:
+                rd = g.calc_2site_rdm()
+                conds = [ctx.eq(np.asarray(rd[(i, j)]).reshape(dims[i] * dims[j], dims[i] * dims[j]), _partial_trace(psi2, [2 * i, 2 * j])) for i in range(n) for j in range(i + 1, n)]
+                ctx.check("density operator: two-site reduced density matrices = partial trace over the other physical and all ancilla indices", ctx.all(conds))
         elif op == "rdm1":
             rd = a.calc_1site_rdm()
             psi = va.reshape(dims)
